@@ -52,6 +52,9 @@ pub enum Op {
     /// debugging aid: record get_mapping() of a guest block as a Note
     #[serde(rename = "map")]
     Map { gb: u64 },
+    /// if need_flush_meta() is false: read everything, reopen, read everything again
+    #[serde(rename = "probe")]
+    Probe,
     /// Alloc.tla replay: the in-ram refcount of the first `n` host clusters
     #[serde(rename = "rcdump")]
     RcDump { n: usize },
@@ -296,6 +299,7 @@ pub struct Runner {
     pub outcome: Vec<String>,
     pub schedules: Vec<Vec<Choice>>,
     pub prep_fault_done: bool,
+    pub probe_mismatch: bool,
     pub stuck: bool,
     pub panicked: bool,
     pub dev_ro: bool,
@@ -672,6 +676,7 @@ impl Runner {
             outcome: Vec::new(),
             schedules: Vec::new(),
             prep_fault_done: false,
+            probe_mismatch: false,
             stuck: false,
             panicked: false,
             dev_ro: top_ro,
@@ -1102,6 +1107,8 @@ impl Runner {
             "pct" => Policy::pct(s.seed.wrapping_mul(1000003).wrapping_add(salt), ntasks, 3, 60),
             "script" => Policy::Script(s.script.clone(), 0),
             "rel" => Policy::Rel(s.rel.clone(), 0),
+            // seed = number of requests of the group's first call that complete before it is parked
+            "park" => Policy::Park(s.seed as usize, 0, 0, Vec::new()),
             _ => Policy::Fifo,
         }
     }
@@ -1123,7 +1130,56 @@ impl Runner {
                 break;
             }
             salt += 1;
+            self.step(st, salt);
+        }
+        let maxb = self.sink.borrow().maxb.clone();
+        let flens: Vec<usize> = self
+            .world
+            .borrow()
+            .files
+            .iter()
+            .map(|f| f.data.len().div_ceil(self.geom.bs()))
+            .collect();
+        self.ev(json!({"e":"End","maxb":maxb,"flen":flens}));
+        self.patch_maxb();
+    }
+
+    /// tokens of every guest block as the device reads them now
+    fn sweep_tokens(&mut self) -> Vec<i64> {
+        let i0 = self.sink.borrow().ev.len();
+        self.step(&Op::Sweep, 0);
+        let s = self.sink.borrow();
+        s.ev[i0..]
+            .iter()
+            .filter(|v| v["e"] == "Ret")
+            .flat_map(|v| v["toks"].as_array().cloned().unwrap_or_default())
+            .map(|t| t.as_i64().unwrap_or(-7))
+            .collect()
+    }
+
+    fn step(&mut self, st: &Op, salt: u64) {
+        {
             match st {
+                Op::Probe => {
+                    // need_flush_meta() == false promises that the file alone gives the same
+                    // guest content: compare the live device with a reopened one (cheap in-harness
+                    // oracle, used to pick a schedule out of a sweep; the kept run is judged by TLC)
+                    let clear = self.dev.as_ref().map(|d| !d.need_flush_meta()).unwrap_or(false);
+                    if clear {
+                        let before = self.sweep_tokens();
+                        if !(self.stuck || self.panicked) {
+                            self.step(&Op::Reopen { params: None, bsb: None, ro: false }, salt);
+                            if self.dev.is_some() {
+                                let after = self.sweep_tokens();
+                                if before != after {
+                                    self.probe_mismatch = true;
+                                }
+                            } else {
+                                self.probe_mismatch = true;
+                            }
+                        }
+                    }
+                }
                 Op::Par { ops } => {
                     let p = self.policy(ops.len(), salt);
                     self.run_group(ops, p);
@@ -1347,15 +1403,5 @@ impl Runner {
                 }
             }
         }
-        let maxb = self.sink.borrow().maxb.clone();
-        let flens: Vec<usize> = self
-            .world
-            .borrow()
-            .files
-            .iter()
-            .map(|f| f.data.len().div_ceil(self.geom.bs()))
-            .collect();
-        self.ev(json!({"e":"End","maxb":maxb,"flen":flens}));
-        self.patch_maxb();
     }
 }
